@@ -61,6 +61,9 @@ def build_snapshot(shape, rng):
     if a in ('sequence', 'all'):
         attrs['seq'] = ['x', 'y']
         attrs['by'] = b'bytes'
+    if a == 'awkward':
+        attrs.update({'seq_none': ['x', None, 'y'], 'none_first': [None, 'z'], 'big': 2 ** 63, 'bigger': 2 ** 70,
+                      'small': -(2 ** 63) - 1, 'edge': 2 ** 63 - 1, 'edge_neg': -(2 ** 63)})
     if attrs:
         snap.attributes.merge_in(BoundedAttributes(attributes=attrs))
     if shape['log_msg'] == 'text':
@@ -84,6 +87,8 @@ def expect_value(v):
     if isinstance(v, str):
         return ('string_value', escaped(v))
     if isinstance(v, int):
+        if not -(2 ** 63) <= v < 2 ** 63:
+            return ('string_value', str(v))       # beyond the 64 bit field: its digits
         return ('int_value', v)
     if isinstance(v, float):
         return ('double_value', v)
@@ -91,7 +96,7 @@ def expect_value(v):
         return ('bytes_value', v)
     if isinstance(v, (list, tuple)):
         return ('array', tuple(expect_value(x) for x in v))
-    return ('unset',)
+    return ('unset',)                             # None (an element of a sequence): a value that is not set
 
 
 def expected_image(s):
